@@ -25,6 +25,7 @@ Qed.
 
 Record ScreenInv (app : Z -> Z -> Z -> Z) (st : root) (tm : term) : Prop := mkSI {
   si_origin : top (w_rect (t_info (r_tree st))) = 0 /\ left (w_rect (t_info (r_tree st))) = 0;
+  si_rootvis : w_vis (t_info (r_tree st)) = true;
   si_size : t_lines tm = lines (w_rect (t_info (r_tree st))) /\ t_cols tm = cols (w_rect (t_info (r_tree st)));
   si_nonempty : all_nonempty (r_damage st);
   si_cells : forall q, cell_inb (root_selfrect st) q = true ->
@@ -60,7 +61,7 @@ Theorem flush_establishes app progs st tm st' tm' lg :
   (forall q, cell_inb (root_selfrect st') q = true -> t_grid tm' q = shows app (r_tree st') q) /\
   ScreenInv app st' tm'.
 Proof.
-  intros [Ho Hs Hne Hc [Hf1 Hf2]] Hq Hprogs Hfl.
+  intros [Ho Hrv Hs Hne Hc [Hf1 Hf2]] Hq Hprogs Hfl.
   assert (Haq : after_queue st = set_flags st (r_nexp st) (r_nrest st) false).
   { unfold after_queue. cbn [r_queue set_flags]. rewrite Hq. cbn [fold_left].
     unfold set_queue, set_flags; cbn. rewrite Hq. reflexivity. }
@@ -99,6 +100,7 @@ Proof.
     split; [exact Hcells|].
     constructor; cbn [r_damage r_tree r_queue r_nexp r_later set_flags set_damage].
     + exact Ho.
+    + exact Hrv.
     + match goal with |- t_lines (do_restore ?a ?b) = _ /\ _ => destruct (do_restore_size a b) as [E1 E2]; rewrite E1, E2 end. exact Hs.
     + constructor.
     + intros q Hin. left. apply Hcells. exact Hin.
